@@ -516,6 +516,431 @@ theorem simAdvanced_no_loopFuel (budget : Nat) (mc ms : List Machine) (sq : SimQ
 
 end
 
+/-! ### under the time-bound invariant of `C19_total`, "queue empty" means drained -/
+
+section
+variable {σ : Type}
+
+/-- "nothing to do": every candidate offset is `MAX`, in particular the queue's -/
+theorem pickDecide_nothing {st : St σ} (h : pickDecide st = .ok .nothing) :
+    ∃ qid c, peekQueue st durMax = .ok (durMax, qid, c) := by
+  unfold pickDecide at h
+  simp only [] at h
+  rw [bind_ok_iff] at h
+  obtain ⟨⟨q, qid, qc⟩, hq, h2⟩ := h
+  simp only [pure, Except.pure] at h2
+  split at h2
+  · rename_i hc
+    simp only [Bool.and_eq_true, decide_eq_true_eq] at hc
+    obtain ⟨⟨⟨⟨h1, h3⟩, h4⟩, h5⟩, h6⟩ := hc
+    rw [h1, h3, h4, h5] at hq
+    simp only [Nat.min_self] at hq
+    rw [h6] at hq
+    exact ⟨qid, qc, hq⟩
+  · repeat (first | cases h2 | split at h2)
+
+
+/-- when a blocked head exists, the side's earliest offset is at most the offset at which that
+    head can be served -/
+theorem peekQueueEarliestSide_le_blocked (sq : SimQueue) (bu : Option Int) (byp : Bool) (now : Int) (ds : Nat) (c : Bool)
+    {b : SimEvent} (hb : (sq.peekBlocking byp c).1 = some b) :
+    (peekQueueEarliestSide sq bu byp now ds c).1 ≤ dsince (max b.time (bu.getD now)) now := by
+  unfold peekQueueEarliestSide
+  rcases hpb : sq.peekBlocking byp c with ⟨pb, bq⟩
+  rcases hpn : sq.peekNonBlocking byp c ds with ⟨pn, nq⟩
+  rw [hpb] at hb
+  simp only [] at hb
+  subst hb
+  simp only []
+  cases pn with
+  | none => exact Nat.le_refl _
+  | some n =>
+    simp only []
+    generalize hnt : (if nq = Queue.base then n.time + (ds : Int) else n.time) = nt
+    by_cases hbf : (if max b.time (bu.getD now) < nt then true
+        else if nt < max b.time (bu.getD now) then false else nq != Queue.base) = true
+    · simp only [hbf, if_true]; exact Nat.le_refl _
+    · simp only [hbf, Bool.false_eq_true, if_false]
+      apply dsince_mono
+      by_cases h1 : max b.time (bu.getD now) < nt
+      · simp [h1] at hbf
+      · omega
+
+theorem side_wf {sq : SimQueue} (hw : sq.WF) (c : Bool) : (sq.side c).WF c := by
+  cases c
+  · exact hw.server
+  · exact hw.client
+
+/-- a queued TunnelSent that the side's blocking applies to makes `peek_blocking` report a head -/
+theorem peekBlocking_some {sq : SimQueue} (hw : sq.WF) {byp c : Bool} {qi : Queue} {e : SimEvent}
+    (he : e ∈ ((sq.side c).heap qi).data) (hts : isTS e = true) (hby : byp = true → e.bypass = false) :
+    ∃ b, (sq.peekBlocking byp c).1 = some b := by
+  have hwc := side_wf hw c
+  cases qi with
+  | base =>
+    have := List.countP_eq_zero.1 hwc.base e he
+    simp only [isNS, isTS, beq_iff_eq] at this hts
+    simp [hts] at this
+  | internal =>
+    have := List.countP_eq_zero.1 hwc.internal e he
+    simp [hts] at this
+  | blocking =>
+    obtain ⟨r, hr⟩ := evHeap_peek_of_mem he
+    simp only [EventQueue.heap] at hr
+    unfold SimQueue.peekBlocking EventQueue.peekBlockingSide
+    cases byp with
+    | true => exact ⟨r, by simp [hr]⟩
+    | false =>
+      simp only [Bool.false_eq_true, if_false, hr]
+      cases hbb : (sq.side c).bypassable.peek with
+      | none => exact ⟨r, by simp [optGt]⟩
+      | some x => split <;> exact ⟨_, rfl⟩
+  | bypassable =>
+    have := List.countP_eq_zero.1 hwc.bypassable e he
+    simp only [hts, Bool.not_true, Bool.false_or, Bool.or_eq_true, Bool.not_eq_true', bne_iff_ne, ne_eq, not_or,
+      Bool.not_eq_false, Decidable.not_not] at this
+    have hbf : byp = false := by
+      cases byp with
+      | false => rfl
+      | true => have := hby rfl; simp_all
+    subst hbf
+    obtain ⟨r, hr⟩ := evHeap_peek_of_mem he
+    simp only [EventQueue.heap] at hr
+    unfold SimQueue.peekBlocking EventQueue.peekBlockingSide
+    simp only [Bool.false_eq_true, if_false, hr]
+    cases hbb : (sq.side c).blocking.peek with
+    | none => exact ⟨r, by simp [optGt]⟩
+    | some x => split <;> exact ⟨_, rfl⟩
+
+
+/-- **Under the time-bound invariant `pick_next` reports "nothing to do" only for empty queues**:
+    every queued event is less than `Duration::MAX` ahead of the clock (base events by the bound
+    on trace times and aggregate delays, internal events by `S`, queued TunnelSent events are due),
+    and a pending blocking expires within `W`. -/
+theorem peekQueue_durMax_empty {π : TPar} {A : Nat} {Hn : Int} {kw J : Nat} {st : St σ} (h : PI π A Hn kw J st)
+    (hb1 : π.Tm + (J : Int) - π.t0 < (durMax : Int)) (hb2 : π.S < durMax) (hW : TB.W < durMax)
+    {qid : Queue} {c : Bool} (hq : peekQueue st durMax = .ok (durMax, qid, c)) : st.sq.isEmpty = true := by
+  by_cases h0 : st.sq.isEmpty = true
+  · exact h0
+  · exfalso
+    unfold peekQueue at hq
+    simp only [h0, Bool.false_eq_true, if_false] at hq
+    rw [bind_ok_iff] at hq
+    obtain ⟨⟨pk, qu, dur⟩, h1, h2⟩ := hq
+    cases pk with
+    | none => simp at h2
+    | some peek =>
+      have hdur := SimQueue.peek_dur h.wf h1
+      have hph := SimQueue.peek_heap h.wf h1
+      have hmem := Heap.peek_mem hph
+      have hqp := h.q peek.client qu peek hmem
+      have ht0 := h.t0le
+      have hagg : (if peek.client then st.net.clientAgg else st.net.serverAgg) ≤ J := h.net.agg_le peek.client
+      have hlt : dur < durMax := by
+        rw [hdur]
+        cases qu with
+        | base =>
+          simp only [qpred] at hqp
+          have : dsince (peek.time + qShift Queue.base (if peek.client then st.net.clientAgg else st.net.serverAgg)) st.now
+              ≤ (π.Tm + (J : Int) - π.t0).toNat := by
+            apply dsince_le_of_le
+            simp only [qShift, if_true]
+            omega
+          omega
+        | internal =>
+          simp only [qpred] at hqp
+          have : dsince (peek.time + qShift Queue.internal (if peek.client then st.net.clientAgg else st.net.serverAgg)) st.now
+              ≤ π.S := by
+            apply dsince_le_of_le
+            simp [qShift]
+            omega
+          omega
+        | blocking =>
+          simp only [qpred] at hqp
+          have : dsince (peek.time + qShift Queue.blocking (if peek.client then st.net.clientAgg else st.net.serverAgg)) st.now
+              ≤ 0 := by
+            apply dsince_le_of_le
+            simp [qShift]
+            omega
+          omega
+        | bypassable =>
+          simp only [qpred] at hqp
+          have : dsince (peek.time + qShift Queue.bypassable (if peek.client then st.net.clientAgg else st.net.serverAgg)) st.now
+              ≤ 0 := by
+            apply dsince_le_of_le
+            simp [qShift]
+            omega
+          omega
+      simp only [pure, Except.pure] at h2
+      split at h2
+      · omega
+      · split at h2
+        · simp only [Except.ok.injEq, Prod.mk.injEq] at h2; omega
+        · rename_i hts
+          split at h2
+          · simp only [Except.ok.injEq, Prod.mk.injEq] at h2; omega
+          · rename_i hcs
+            split at h2
+            · simp only [Except.ok.injEq, Prod.mk.injEq] at h2; omega
+            · rename_i hx
+              split at h2
+              · simp only [Except.ok.injEq, Prod.mk.injEq] at h2; omega
+              · rename_i hy
+                -- the blocked side: its earliest offset is below MAX
+                have hts' : isTS peek = true := by
+                  simp only [bne_iff_ne, ne_eq, Decidable.not_not] at hts
+                  simp [isTS, hts]
+                have hside : ∃ u, (st.side peek.client).blockingUntil = some u ∧
+                    ((st.side peek.client).blockingBypassable = true → peek.bypass = false) := by
+                  cases hpc : peek.client with
+                  | true =>
+                    simp only [hpc, St.side, if_true] at hx hy ⊢
+                    cases hbu : st.client.blockingUntil with
+                    | none => simp [hbu] at hx
+                    | some u =>
+                      refine ⟨u, rfl, fun hb => ?_⟩
+                      simp [hbu, hb] at hy
+                      exact hy
+                  | false =>
+                    simp only [hpc, St.side, Bool.false_eq_true, if_false] at hx hy ⊢
+                    cases hbu : st.server.blockingUntil with
+                    | none => simp [hbu] at hx
+                    | some u =>
+                      refine ⟨u, rfl, fun hb => ?_⟩
+                      simp [hbu, hb] at hy
+                      exact hy
+                obtain ⟨u, hu, hbyp⟩ := hside
+                obtain ⟨b, hb⟩ := peekBlocking_some h.wf (byp := (st.side peek.client).blockingBypassable) hmem hts' hbyp
+                obtain ⟨qb, hqb, hbm, _, _⟩ := peekBlocking_mem hb
+                have hbq := h.q peek.client qb b hbm
+                have hbt : b.time ≤ st.now := by
+                  rcases hqb with rfl | rfl <;> simp only [qpred] at hbq <;> exact hbq.1
+                have hul := (h.sides peek.client).untl u hu
+                have hle : ∀ ds, (peekQueueEarliestSide st.sq (st.side peek.client).blockingUntil
+                    (st.side peek.client).blockingBypassable st.now ds peek.client).1 ≤ TB.W := by
+                  intro ds
+                  refine Nat.le_trans (peekQueueEarliestSide_le_blocked st.sq _ _ st.now ds peek.client hb) ?_
+                  apply dsince_le_of_le
+                  rw [hu]
+                  simp only [Option.getD_some]
+                  omega
+                cases hpc : peek.client with
+                | true =>
+                  have hle' := hle st.net.clientAgg
+                  simp only [hpc, St.side, if_true] at hle'
+                  split at h2 <;> simp only [Except.ok.injEq] at h2
+                  · rw [h2] at hle'; simp only [] at hle'; omega
+                  · rename_i hcs'
+                    rw [h2] at hcs'; simp only [] at hcs'; omega
+                | false =>
+                  have hle' := hle st.net.serverAgg
+                  simp only [hpc, St.side, Bool.false_eq_true, if_false] at hle'
+                  split at h2 <;> simp only [Except.ok.injEq] at h2
+                  · rename_i hcs'
+                    rw [h2] at hcs'; simp only [] at hcs'
+                    have := peekQueueEarliestSide_le st.sq st.server.blockingUntil st.server.blockingBypassable st.now st.net.serverAgg false
+                    omega
+                  · rw [h2] at hle'; simp only [] at hle'; omega
+
+
+theorem isEmpty_pending {sq : SimQueue} (h : sq.isEmpty = true) (c : Bool) : sq.pending c = 0 := by
+  unfold SimQueue.isEmpty SimQueue.len EventQueue.len Heap.len at h
+  simp only [beq_iff_eq] at h
+  have key : ∀ (l : List SimEvent), l.length = 0 → l.countP wN = 0 := by
+    intro l hl; rw [List.length_eq_zero_iff.1 hl]; rfl
+  unfold SimQueue.pending EventQueue.pending SimQueue.side
+  cases c
+  · simp only [Bool.false_eq_true, if_false]
+    rw [key _ (by omega), key _ (by omega), key _ (by omega)]
+  · simp only [if_true]
+    rw [key _ (by omega), key _ (by omega), key _ (by omega)]
+
+/-- under the invariant, when `pick_next` returns `None` no normal packet waits in the queues -/
+theorem pickNext_none_pending {π : TPar} {A : Nat} {Hn : Int} {kw J : Nat} (hJ : J ≤ durMax)
+    (hb1 : π.Tm + (J : Int) - π.t0 < (durMax : Int)) (hb2 : π.S < durMax) (hW : TB.W < durMax) :
+    ∀ (fuel : Nat) (st : St σ), PI π A Hn kw J st → ∀ st', pickNext fuel st = some (.ok (none, st')) →
+      ∀ c, st.sq.pending c = 0 := by
+  intro fuel
+  induction fuel with
+  | zero => intro st _ st' h; simp [pickNext] at h
+  | succ n ih =>
+    intro st h st' hpn c
+    unfold pickNext at hpn
+    obtain ⟨p, hd⟩ := pickDecide_ok st
+    rw [hd] at hpn
+    cases p with
+    | nothing =>
+      obtain ⟨qid, qc, hq⟩ := pickDecide_nothing hd
+      exact isEmpty_pending (peekQueue_durMax_empty h hb1 hb2 hW hq) c
+    | agg =>
+      simp only [] at hpn
+      cases hag : pickAgg st with
+      | error f0 => simp [hag] at hpn
+      | ok st1 =>
+        simp only [hag] at hpn
+        obtain ⟨hp1, _, _, hsq⟩ := (pickAgg_ti h hJ).2 st1 hag
+        rw [← hsq]
+        exact ih st1 hp1 st' hpn c
+    | blockExp b cl =>
+      simp only [] at hpn
+      cases hbe : pickBlockExp st b cl with
+      | error f0 => simp [hbe] at hpn
+      | ok pr => simp [hbe] at hpn
+    | queue q qid cl =>
+      simp only [] at hpn
+      cases hqe : pickQueue st q qid cl with
+      | error f0 => simp [hqe] at hpn
+      | ok pr => simp [hqe] at hpn
+    | timer i =>
+      simp only [] at hpn
+      cases hte : pickTimer st i with
+      | error f0 => simp [hte] at hpn
+      | ok st1 =>
+        simp only [hte] at hpn
+        obtain ⟨hp1, _, _⟩ := (pickTimer_ti (i := i) h).2 st1 hte
+        rw [← (pickTimer_conserve h.wf hte).2 c]
+        exact ih st1 hp1 st' hpn c
+    | action s =>
+      simp only [] at hpn
+      cases hte : pickAction st s with
+      | error f0 => simp [hte] at hpn
+      | ok st1 =>
+        simp only [hte] at hpn
+        obtain ⟨hp1, _, _⟩ := (pickAction_ti (s := s) h).2 st1 hte
+        rw [← (pickAction_conserve h.wf hte).2 c]
+        exact ih st1 hp1 st' hpn c
+
+end
+
+section
+variable {σ : Type} (ρ : Oracle σ)
+
+/-- an iteration that ends the run with "queue empty" is a `pick_next` that returned `None` -/
+theorem step_none_pick {st : St σ} (h : step ρ st = .ok none) :
+    ∃ st', pickNext (pickMeasure st + 1) st = some (.ok (none, st')) := by
+  unfold step at h
+  rw [bind_ok_iff] at h
+  obtain ⟨⟨next, st1⟩, hp, h2⟩ := h
+  have hp' : pickNext (pickMeasure st + 1) st = some (.ok (next, st1)) := by
+    cases hpn : pickNext (pickMeasure st + 1) st with
+    | none => simp [hpn] at hp
+    | some x => simp [hpn] at hp; rw [hp]
+  cases next with
+  | none => exact ⟨st1, hp'⟩
+  | some next =>
+    exfalso
+    simp only [] at h2
+    split at h2
+    · cases h2
+    · rw [bind_ok_iff] at h2
+      obtain ⟨⟨na, sq, net⟩, _, h3⟩ := h2
+      rw [bind_ok_iff] at h3
+      obtain ⟨⟨acts, st2⟩, _, h4⟩ := h3
+      simp only [pure, Except.pure, Except.ok.injEq] at h4
+      cases h4
+
+/-- **Under the guard of `C19_total`, a run that ends because `pick_next` returned `None` has
+    drained its queues**: no normal packet waits in the final state. -/
+theorem loop_LI_drained {N d T : Nat} {t0 : Int} (args : Args) (hcap : CappedAt args N)
+    (ht0 : -(d : Int) ≤ t0) (hg : (N + 2) * TB.span N T d ≤ durMax) :
+    ∀ (fuel : Nat) (st : St σ) (iters cnt : Nat), LI N d T t0 iters st → iters < N →
+    (args.maxSimIterations = N ∨ cnt = iters) →
+    (loop ρ args fuel st iters cnt).stop = .queueEmpty →
+    ∀ stf, (loop ρ args fuel st iters cnt).final = some stf → ∀ c, stf.sq.pending c = 0 := by
+  intro fuel
+  induction fuel with
+  | zero => intro st iters cnt _ _ _ h; simp [loop] at h
+  | succ n ih =>
+    intro st iters cnt hli hlt hrel h stf hfin c
+    have hst := step_LI ρ hli hlt ht0 hg
+    cases hs : step ρ st with
+    | error f0 => simp [loop, hs] at h
+    | ok o =>
+      cases o with
+      | none =>
+        simp only [loop, hs, Option.some.injEq] at hfin
+        subst hfin
+        obtain ⟨st', hpn⟩ := step_none_pick ρ hs
+        have hN : 0 < N := by omega
+        have hsp : TB.span N T d = T + d + TB.aggK * d + N * (TB.aggD N + TB.aggD N) + N * TB.stepZ N d := rfl
+        have l2 : iters * (TB.aggD N + TB.aggD N) ≤ N * (TB.aggD N + TB.aggD N) :=
+          Nat.mul_le_mul_right _ (by omega)
+        have l3 : TB.stepZ N d ≤ N * TB.stepZ N d := Nat.le_mul_of_pos_left _ hN
+        have l4 : 2 * TB.span N T d ≤ (N + 2) * TB.span N T d := Nat.mul_le_mul_right _ (by omega)
+        have hdm : 0 < durMax := by decide
+        have hSW : (mkPar N d T t0).S + TB.W = TB.stepZ N d := mkPar_S N d T t0
+        refine pickNext_none_pending (π := mkPar N d T t0) (J := iters * (TB.aggD N + TB.aggD N)) ?_ ?_ ?_ ?_
+          (pickMeasure st + 1) st hli.1 st' hpn c
+        · omega
+        · show ((T : Nat) : Int) + ((iters * (TB.aggD N + TB.aggD N) : Nat) : Int) - t0 < (durMax : Int)
+          omega
+        · omega
+        · omega
+      | some p =>
+        obtain ⟨r, st'⟩ := p
+        rw [loop_succ_some ρ args n st st' iters cnt r hs] at h hfin
+        cases hstop : stopCheck args st' iters (bump args r cnt) with
+        | some s =>
+          simp only [hstop] at h
+          subst h
+          unfold stopCheck at hstop
+          repeat (first | cases hstop | split at hstop)
+        | none =>
+          simp only [hstop] at h hfin
+          have hnext : iters + 1 < N ∧ (args.maxSimIterations = N ∨ bump args r cnt = iters + 1) := by
+            unfold stopCheck at hstop
+            split at hstop
+            · cases hstop
+            · rename_i hnt
+              split at hstop
+              · cases hstop
+              · rename_i hni
+                rcases hrel with hrel | hrel
+                · rw [hrel] at hni
+                  simp only [Bool.and_eq_true, decide_eq_true_eq, not_and, Nat.not_le] at hni
+                  exact ⟨hni (by omega), Or.inl hrel⟩
+                · rcases hcap with hcap | ⟨hc1, hc2, hc3⟩
+                  · rw [hcap] at hni
+                    simp only [Bool.and_eq_true, decide_eq_true_eq, not_and, Nat.not_le] at hni
+                    exact ⟨hni (by omega), Or.inl hcap⟩
+                  · have hb : bump args r cnt = cnt + 1 := by
+                      unfold bump Args.keep Sim.keep
+                      simp [hc2, hc3]
+                    rw [hc1, hb] at hnt
+                    simp only [Bool.and_eq_true, decide_eq_true_eq, not_and, Nat.not_le] at hnt
+                    have := hnt (by omega)
+                    exact ⟨by omega, Or.inr (by omega)⟩
+          exact ih st' (iters + 1) (bump args r cnt) (hst.2 r st' hs) hnext.1 hnext.2 h stf hfin c
+
+/-- the same for `sim_advanced`, from the hypotheses of `C19_total` on the inputs -/
+theorem simAdvanced_drained (budget : Nat) {mc ms : List Machine} (hmc : MachinesOK mc) (hms : MachinesOK ms)
+    {sq : SimQueue} {a : Args} {N d T : Nat} (hq : QueueOK sq (-(d : Int)) (T : Int))
+    (hfrac : Validate.fracOK a.fpClient = true ∧ Validate.fracOK a.fbClient = true ∧
+      Validate.fracOK a.fpServer = true ∧ Validate.fracOK a.fbServer = true)
+    (hd : a.network.delay = d) (hpps : 1 ≤ effPps a.network sq.maxPps)
+    (hcap : CappedAt a N) (hN : 0 < N) (hg : (N + 2) * TB.span N T d ≤ durMax) (orc : σ)
+    (hstop : (simAdvanced ρ budget mc ms sq a orc).stop = .queueEmpty) :
+    ∀ stf, (simAdvanced ρ budget mc ms sq a orc).final = some stf → ∀ c, stf.sq.pending c = 0 := by
+  obtain ⟨t0, st, hi, ht0, hli⟩ := initState_LI ρ hmc hms (N := N) hq hfrac hd hpps orc
+  unfold simAdvanced at hstop ⊢
+  simp only [hi, finish_stop] at hstop ⊢
+  intro stf hfin
+  exact loop_LI_drained ρ a hcap ht0 hg (loopFuel a budget) st 0 0 hli hN (Or.inr rfl) hstop stf (finish_final hfin)
+
+end
+
+section
+variable {σ : Type} (ρ : Oracle σ)
+
+/-- a trace without a normal line makes `sq.get_first_time().unwrap()` panic -/
+theorem no_normal_line_panics (budget : Nat) (c : CaseIn) (r : RunIn) (orc : σ) (h : normalLines c.trace = []) :
+    (modelOut ρ budget c r orc).stop.isPanic = true := by
+  unfold modelOut
+  rw [parseTraceRaw_eq, h]
+  rfl
+
+end
+
 /-! ### vocabulary of the C15 monitor -/
 
 theorem normalSentCount_map_ev (l : List StepRec) (c : Bool) :
